@@ -1493,11 +1493,117 @@ def check_range_boundary(api, fn, param, label, wording, call, shapes):
         if isinstance(o.exc, ValueError): return []
         got = "raises %s" % type(o.exc).__name__ if o.exc is not None else "returns %s" % shape(o.result)
         return [finding("not-refused-out-of-range:%s:%s:%s" % (fn.key, param, label[1:]),
-                        "%s %s just outside its documented range (docstring: ':raises: %s')" % (fn.key, got, wording), call)]
+                        "%s %s instead of ValueError: %s" % (fn.key, got, ("an impossible date given in the " + wording) if wording.startswith("documented input form")
+                                                           else "just outside its documented range (docstring: ':raises: %s')" % wording), call)]
     fs, o = check_in_domain(api, fn, call, shapes, None)
     for f in fs:
         if f["key"] == "raises-in-domain:" + fn.key:
             f["key"] = "raises-in-domain:%s:%s:%s" % (fn.key, param, label)
-            f["what"] = "%s raises %s at the end of its documented range (docstring: ':raises: %s')" % (
-                fn.key, type(o.exc).__name__ if o is not None and o.exc is not None else "?", wording)
+            f["what"] = "%s raises %s (%s) on %s" % (
+                fn.key, type(o.exc).__name__ if o is not None and o.exc is not None else "?",
+                str(o.exc)[:60] if o is not None and o.exc is not None else "", wording if wording.startswith("documented input form")
+                else "the end of its documented range (docstring: ':raises: %s')" % wording)
     return fs
+
+
+# ====================================================================== documented alternative input forms
+def input_form_calls(api):
+    """explicit in-domain records for the documented alternative INPUT FORMS at the corners where a
+    form-specific branch can hide (month names x leap day / month ends, tuple / list / date forms, sexagesimal
+    tuples incl. the sign element, the table forms of Interpolation / CurveFitting).
+    returns (param, label, wording, Call); label starting with '!' = must be refused with ValueError"""
+    out = []
+    F = api.fns
+
+    def add(key, recv, args, kw, label, must_refuse=False):
+        fn = F.get(key)
+        if fn is None: return
+        c = make_call(fn, recv, args, kw, "input-form")
+        out.append((fn.varargs or (fn.params[0].name if fn.params else "self"), ("!" if must_refuse else "") + label,
+                    "documented input form '%s'" % label, c))
+
+    SHORT = ["Jan", "Feb", "Mar", "Apr", "May", "Jun", "Jul", "Aug", "Sep", "Oct", "Nov", "Dec"]
+    LONG = ["January", "February", "March", "April", "May", "June", "July", "August", "September", "October",
+            "November", "December"]
+    E0 = "Epoch(2451545.0)"
+
+    def epoch_forms(y, m, d, label, refuse=False, full=True):
+        """every way of saying the date (y, m, d) with month given as `m` (source text)"""
+        add("Epoch.__init__", None, [repr(y), m, repr(d)], {}, label, refuse)
+        if not full:
+            add("Epoch.check_input_date", None, ["(%r, %s, %r)" % (y, m, d)], {}, label + "/tuple", refuse)
+            return
+        add("Epoch.__init__", None, ["(%r, %s, %r)" % (y, m, d)], {}, label + "/tuple", refuse)
+        add("Epoch.__init__", None, ["[%r, %s, %r]" % (y, m, d)], {}, label + "/list", refuse)
+        add("Epoch.set", E0, [repr(y), m, repr(d)], {}, label, refuse)
+        add("Epoch.set", E0, ["(%r, %s, %r)" % (y, m, d)], {}, label + "/tuple", refuse)
+        add("Epoch.check_input_date", None, [repr(y), m, repr(d)], {}, label, refuse)
+        add("Epoch.check_input_date", None, ["[%r, %s, %r]" % (y, m, d)], {}, label + "/list", refuse)
+
+    # 29 February of leap years, Julian and Gregorian, month as number and as name in every documented spelling
+    for y in (2000, 2024, 1500, -4712, 1600, 4):
+        for m in ("2", "'Feb'", "'February'", "'FEBRUARY'", "'feb'", "' february '"):
+            lab = "leap-day/month-" + ("number" if m == "2" else "name")
+            epoch_forms(y, m, 29, lab)
+            epoch_forms(y, m, 29.5, lab, full=(m in ("2", "'FEBRUARY'")))
+    for y in (1900, 2023, 2100, 1582):       # not leap years (1900, 2100: Gregorian century years)
+        for m in ("2", "'Feb'", "'FEBRUARY'"):
+            epoch_forms(y, m, 29, "no-leap-day/month-" + ("number" if m == "2" else "name"), refuse=True)
+    # the last day of every month, names in three spellings
+    mlen = [31, 28, 31, 30, 31, 30, 31, 31, 30, 31, 30, 31]
+    for k in range(12):
+        for m in (repr(k + 1), repr(SHORT[k]), repr(LONG[k].upper()), repr(LONG[k].lower())):
+            lab = "month-end/month-" + ("number" if m.isdigit() else "name")
+            epoch_forms(2023, m, mlen[k], lab)
+            epoch_forms(2023, m, mlen[k] + 0.75, lab, full=False)
+            epoch_forms(2023, m, mlen[k] + 1, "past-month-end/month-" + ("number" if m.isdigit() else "name"), refuse=True, full=False)
+    # date / datetime objects
+    for d in ("datetime.date(2024, 2, 29)", "datetime.datetime(2024, 2, 29, 12, 30, 15)", "datetime.date(1900, 2, 28)",
+              "datetime.date(2023, 12, 31)", "datetime.datetime(2000, 2, 29, 23, 59, 59, 999999)"):
+        add("Epoch.__init__", None, [d], {}, "date-object")
+        add("Epoch.set", E0, [d], {}, "date-object")
+        add("Epoch.check_input_date", None, [d], {}, "date-object")
+    # leap-year related statics on the same corners
+    for y in (2000, 2024, 1500, -4712, 1900, 2100, 2023, 2000.0):
+        add("Epoch.is_leap", None, [repr(y)], {}, "leap-corner")
+    for y in (2000, 2024, 1500, -4712):
+        add("Epoch.get_doy", None, [repr(y), "2", "29"], {}, "leap-day")
+        add("Epoch.get_doy", None, [repr(y), "12", "31"], {}, "leap-year-end")
+        add("Epoch.doy2date", None, [repr(y), "60"], {}, "leap-day")
+        add("Epoch.doy2date", None, [repr(y), "366"], {}, "leap-year-end")
+        add("Epoch.is_julian", None, [repr(y), "2", "29"], {}, "leap-day")
+    add("Epoch.get_doy", None, ["1900", "2", "29"], {}, "no-leap-day", True)
+    for m in SHORT + LONG + [x.upper() for x in LONG] + [x.lower() for x in SHORT]:
+        add("Epoch.get_month", None, [repr(m)], {}, "month-name")
+        add("Epoch.get_month", None, [repr(m)], {"as_string": "True"}, "month-name")
+    # Angle: sexagesimal tuples and lists, incl. the 4-element form with the sign
+    for body in ("10, 30, 15.5", "-10, 30, 15.5", "0, 0, 59.99", "10, 30", "359, 59, 59.9", "0, -30, 0.0"):
+        for o, c in (("(", ")"), ("[", "]")):
+            lab = "dms-" + ("tuple" if o == "(" else "list")
+            add("Angle.__init__", None, [o + body + c], {}, lab)
+            add("Angle.set", "Angle(5.0)", [o + body + c], {}, lab)
+            add("Angle.__init__", None, [o + body + c], {"ra": "True"}, lab + "/ra")
+            add("Angle.set_ra", "Angle(5.0)", [o + body + c], {}, lab + "/ra")
+    for body in ("10, 30, 15.5, -1", "10, 30, 15.5, 1", "10, 30, 15.5, -1.0", "0, 0, 30.0, -1", "10, 30, 15.5, 1.0"):
+        for o, c in (("(", ")"), ("[", "]")):
+            add("Angle.__init__", None, [o + body + c], {}, "dms-sign-4" + ("tuple" if o == "(" else "list"))
+            add("Angle.set", "Angle(5.0)", [o + body + c], {}, "dms-sign-4" + ("tuple" if o == "(" else "list"))
+    for args in (["10", "30", "15.5"], ["-10", "30", "15.5"], ["10", "30"], ["10", "30", "15.5", "-1"]):
+        add("Angle.__init__", None, args, {}, "dms-scalars")
+        add("Angle.set", "Angle(5.0)", args, {}, "dms-scalars")
+    # Interpolation / CurveFitting table forms
+    for cls, xs, ys in (("Interpolation", "1, 2, 3, 4", "12, 5, -8, 3"), ("CurveFitting", "1, 2, 3, 4", "2, 4, 7, 8"),
+                        ("Interpolation", "1.5, 0.5, 2.5", "3.0, -1.0, 4.0"), ("CurveFitting", "1.5, 0.5, 2.5", "3.0, -1.0, 4.0")):
+        xl, yl = xs.split(", "), ys.split(", ")
+        inter = [v for p in zip(xl, yl) for v in p]
+        forms = (("two-tuples", ["(%s)" % xs, "(%s)" % ys]), ("list+tuple", ["[%s]" % xs, "(%s)" % ys]),
+                 ("tuple+list", ["(%s)" % xs, "[%s]" % ys]), ("two-lists", ["[%s]" % xs, "[%s]" % ys]),
+                 ("interleaved-scalars", inter), ("interleaved-odd-count", inter + ["99"]),
+                 ("ordinates-only-list", ["[%s]" % ys]), ("ordinates-only-tuple", ["(%s)" % ys]),
+                 ("copy", ["%s([%s], [%s])" % (cls, xs, ys)]),
+                 ("angles", ["[%s]" % ", ".join("Angle(%s)" % v for v in xl), "[%s]" % ", ".join("Angle(%s)" % v for v in yl)]),
+                 ("unequal-lengths", ["[%s, 77]" % xs, "[%s]" % ys]))
+        for lab, args in forms:
+            add(cls + ".__init__", None, args, {}, lab)
+            add(cls + ".set", cls + "()", args, {}, lab)
+    return out
